@@ -35,7 +35,8 @@ Qed.
 (* Suspend: the triggering source is Suspended right after the call and its
    release token is queued in that barrier; a suspended source stays
    suspended under every event that does not drop the handle carrying its
-   token or the barrier still holding it undelivered, and is Running right
+   token or the barrier still holding it undelivered (nor is the source's own
+   giving up: timeout around the call, or the source being dropped), and is Running right
    after such a drop; and in every reachable state a suspended source does have
    such a token (some DropHandle / DropBarrier releases it), exactly one, and
    there are no tokens for sources that are not suspended. *)
@@ -46,9 +47,10 @@ Theorem suspend_until_release : forall (V : Type),
      (forall k, k <> src -> sget (srcs s') k = sget (srcs s) k) /\
      handles s' = handles s /\
      regs s' = upd_fifo V (b_id b) (fun f => f ++ [{| e_val := v; e_rel := Some src; e_tid := ntid s |}]) (regs s)) /\
-  (forall s src e, sget (srcs s) src = Suspended -> releases V s src e = false ->
+  (forall s src e, sget (srcs s) src = Suspended -> releases V s src e = false -> kills V src e = false ->
      sget (srcs (fst (step V s e))) src = Suspended) /\
-  (forall s src e, releases V s src e = true -> sget (srcs (fst (step V s e))) src = Running) /\
+  (forall s src e, sget (srcs s) src = Suspended -> releases V s src e = true ->
+     sget (srcs (fst (step V s e))) src = Running) /\
   (forall es src, let s := final V (init V) es in
      sget (srcs s) src = Suspended -> In src (tokens V s) /\ exists e, releases V s src e = true) /\
   (forall es, let s := final V (init V) es in
@@ -64,6 +66,25 @@ Proof.
     destruct (run_tokinv2 V es (init V) (regok_init V) (tokinv2_init V)) as [ND SU].
     split; [exact ND|]. intros src. split; [apply SU|].
     apply (run_tokinv V es (init V) (regok_init V) (tokinv_init V)).
+Qed.
+
+(* The triggering code may vanish while parked (task abort, Sim::crash of the
+   host, timeout around the call): the report stays queued with its value and
+   trigger id - by reported_once_in_order, which ranges over histories with Kill
+   and Abandon events, it is still handed out exactly once, in trigger order -
+   and a source that is gone stays gone whatever the test does with the stale
+   handle or barrier. *)
+Theorem source_gone_still_reported : forall (V : Type),
+  (forall s k b e, e = Kill k \/ e = Abandon k ->
+     fifo_l V b (regs (fst (step V s e))) = fifo_l V b (regs s)) /\
+  (forall s k, sget (srcs s) k <> Panicked -> sget (srcs (fst (step V s (Kill k)))) k = Gone) /\
+  (forall es e src, let s := final V (init V) es in
+     sget (srcs s) src = Gone -> sget (srcs (fst (step V s e))) src = Gone).
+Proof.
+  intros V. split; [exact (vanish_keeps_reports V)|]. split.
+  - intros s k H. cbn. destruct (sget (srcs s) k) eqn:K; try congruence; cbn; now rewrite N.eqb_refl.
+  - intros es e src s G. apply gone_stays; [|exact G].
+    apply run_tokinv2; [apply regok_init|apply tokinv2_init].
 Qed.
 
 (* Noop: the call is queued with no release token and no source changes state
@@ -113,12 +134,16 @@ Example c20_nonvacuous :
   crun 2 [Build Suspend (ccond 0 (PGt 3)); Build Noop (ccond 0 PAny);
           Trigger 0 (0, 5); Trigger 1 (0, 2); Trigger 0 (0, 9); Wait 1; Wait 0; Wait 0; DropHandle 1;
           Trigger 0 (0, 7); DropBarrier 0; Trigger 0 (0, 8); Wait 1; Wait 0;
-          Build Panic (ccond 1 PAny); Trigger 1 (1, 1); Trigger 1 (0, 1)] =
+          Build Panic (ccond 1 PAny); Trigger 1 (1, 1); Trigger 1 (0, 1);
+          DropBarrier 1; DropBarrier 2;
+          Build Suspend (ccond 0 PAny); Trigger 0 (0, 4); Kill 0; Wait 3; DropHandle 3; Trigger 0 (0, 4)] =
     [([0; 0], [0; 0]); ([0; 1], [0; 0]);
      ([1], [1; 0]); ([1], [1; 0]); ([2], [1; 0]); ([4; 0; 0; 2], [1; 0]); ([4; 1; 0; 5], [1; 0]); ([3], [1; 0]);
      ([5], [0; 0]);
      ([1], [1; 0]); ([5], [0; 0]); ([1], [0; 0]); ([4; 2; 0; 8], [0; 0]); ([3], [0; 0]);
-     ([0; 2], [0; 0]); ([1], [0; 2]); ([2], [0; 2])].
+     ([0; 2], [0; 0]); ([1], [0; 2]); ([2], [0; 2]);
+     ([5], [0; 2]); ([5], [0; 2]);
+     ([0; 3], [0; 2]); ([1], [1; 2]); ([5], [3; 2]); ([4; 3; 0; 4], [3; 2]); ([5], [3; 2]); ([2], [3; 2])].
 Proof. vm_compute. reflexivity. Qed.
 
 Check reported_once_in_order : forall (V : Type) (es : list (ev V)) (b : N),
@@ -129,6 +154,7 @@ Check reported_once_in_order : forall (V : Type) (es : list (ev V)) (b : N),
 
 Print Assumptions reported_once_in_order.
 Print Assumptions suspend_until_release.
+Print Assumptions source_gone_still_reported.
 Print Assumptions noop_never_blocks.
 Print Assumptions panic_panics.
 Print Assumptions no_match_immediate.
